@@ -44,6 +44,8 @@ def run(project, rep):
     rep.run(Z.z_r4_conversion, project, rep, utc_label=True)
     rep.run(Z.z_r5_offset_sign, project, rep)
     rep.run(Z.z_r5b_sign_of_zero_hours, project, rep)
+    rep.rule("V-R13", "every offset the notation allows (-12 .. +14) reaches the model: the range test of gmt_offset admits exactly that domain (Z-R8)")
+    rep.run(Z.z_r8_offset_domain, project, rep)
     rep.run(Z.z_r6_carrier_date, project, rep)
     rep.run(Z.z_r1_grammar, project, rep)
     from .. import rules_header as H
